@@ -129,6 +129,9 @@ class Models:
             for j, n in enumerate(self.names):
                 tot = tot + (j + 1) * x[n]
             return {"output": Q(tot) if self.exact else float(tot)}
+        if k == "antisym":        # two labels whose values always cancel: the normalised marginal prediction has a zero sum
+            v = self.num(h("m", c) % 1000 + 1)
+            return {self.lab(0): v, self.lab(1): -v}
         if k == "phase":          # uninformative (constant) for inputs from the first ~40 observations, informative afterwards:
             # a model that "becomes informative" later in the stream, expressed as a pure function of the (time-coded) input
             vals = [v for v in x.values() if isinstance(v, (int, float)) and not isinstance(v, bool)]
@@ -172,6 +175,20 @@ class Losses:
         self.max_abs = 0.0
 
     def one(self, y, p):
+        r = self._one(y, p)
+        if self.exact or isinstance(r, bool):
+            return r
+        if self.out_type == "u8-loss":         # a loss reported as a narrow unsigned NumPy integer (e.g. absolute error of byte data)
+            import numpy as np
+            return np.uint8(min(255, int(abs(float(r))) % 256))
+        if self.out_type == "arr-loss":        # ... or as a 0-d NumPy array (np.asarray(value))
+            import numpy as np
+            return np.asarray(float(r))
+        return r
+
+    def _one(self, y, p):
+        if self.exact:      # exact mode: float zeros handed in by the library (zero-sum normalisation) are exact rationals too
+            p = {k: (Q(v) if isinstance(v, float) else v) for k, v in p.items()}
         if self.kind == "hash":
             v = h("l", _cv(y) if not isinstance(y, str) else y, canon(p)) % 2001 - 1000
             return Q(v, 13) if self.exact else v / 16.0
@@ -203,8 +220,6 @@ class Losses:
             self.clock.tick("loss")
             self.clock.log.append(("loss", vals[0], dict(vals[1])))
         r = self.one(vals[0], vals[1])
-        if self.out_type == "np32-loss" and not self.exact:
-            pass        # (float32 losses would change the arithmetic precision of the references: not used)
         a = abs(float(r))
         if a > self.max_abs:
             self.max_abs = a
